@@ -10,7 +10,7 @@ package datamover
 
 // ---- the chunk buffer ----
 // every valid chunk holds exactly one granule of bytes
-//@ pred bufWF(bs) = bs != nil && bs.Granularity > 0 && (forall i in 0..len(bs.Chunks) :: bs.Chunks[i].Valid ==> len(bs.Chunks[i].Data) == bs.Granularity)
+//@ pred bufWF(bs) = bs != nil && bs.Granularity > 0 && (forall i in 0..len(bs.Chunks) :: bs.Chunks[i].Valid ==> len(bs.Chunks[i].Data) == bs.Granularity) && (forall i in 0..len(bs.Chunks) :: ref(bs.Chunks[i].Data) <= allocTop)
 //@ func slotOf(bs, offset) = (offset - bs.Offset) / bs.Granularity
 //@ pred sameChunk(bs, i, j) = bs.Chunks[i].Valid == old(bs.Chunks[j].Valid) && ref(bs.Chunks[i].Data) == old(ref(bs.Chunks[j].Data)) && off(bs.Chunks[i].Data) == old(off(bs.Chunks[j].Data)) && len(bs.Chunks[i].Data) == old(len(bs.Chunks[j].Data))
 
@@ -51,3 +51,381 @@ package datamover
 //@   loop 0: invariant forall j in old(len(bs.Chunks))..i :: !bs.Chunks[j].Valid
 //@   loop 0: invariant bs.Offset == old(bs.Offset) && bs.Granularity == old(bs.Granularity)
 //@   loop 0: invariant (ref(bs.Chunks) == old(ref(bs.Chunks)) && off(bs.Chunks) == old(off(bs.Chunks))) || fresh(bs.Chunks)
+//@   loop 0: invariant forall j in 0..i :: bs.Chunks[j].Valid ==> len(bs.Chunks[j].Data) == bs.Granularity
+//@   loop 0: invariant forall j in 0..i :: ref(bs.Chunks[j].Data) <= old(allocTop)
+
+// ---- small facts about Euclidean division (proved separately, instantiated with `use`) ----
+//@ lemma divLower(i, x, g)
+//@   property C23
+//@   requires g > 0 && i >= 0 && x >= 0 && i * g <= x
+//@   ensures i <= x / g
+//@ lemma divUpper(i, x, g)
+//@   property C23
+//@   requires g > 0 && i >= 0 && x >= 0 && x < (i + 1) * g
+//@   ensures x / g <= i
+
+//@ lemma alignedMod(o, g)
+//@   property C23
+//@   requires g > 0 && o >= 0
+//@   ensures (o - o % g) % g == 0
+//@ lemma alignedDiff(a, b, g)
+//@   property C23
+//@   requires g > 0 && a % g == 0 && b % g == 0
+//@   ensures (a - b) / g * g == a - b
+
+// moving the offset forward forgets exactly the chunks below the new aligned offset: new chunk i is old chunk i+d
+//@ pred bufAligned(bs) = bs.Offset % bs.Granularity == 0
+//@ func alignedTo(bs, o) = o - o % bs.Granularity
+//@ func discard(bs, o) = (alignedTo(bs, o) - bs.Offset) / bs.Granularity
+//@ fn bufferMoveOffsetForwardTo
+//@   property C23
+//@   requires bufWF(bs) && bufAligned(bs)
+//@   use alignedMod(newOffset, bs.Granularity)
+//@   use alignedDiff(alignedTo(bs, newOffset), bs.Offset, bs.Granularity)
+//@   label C23.move.noop
+//@   ensures old(alignedTo(bs, newOffset) <= bs.Offset) ==> bs.Offset == old(bs.Offset) && unchanged(bs.Chunks)
+//@   label C23.move.offset
+//@   ensures old(alignedTo(bs, newOffset) > bs.Offset) ==> bs.Offset == old(alignedTo(bs, newOffset))
+//@   label C23.move.exact
+//@   ensures old(alignedTo(bs, newOffset) > bs.Offset) ==> old(bs.Offset) + old(discard(bs, newOffset)) * bs.Granularity == bs.Offset
+//@   label C23.move.len
+//@   ensures old(alignedTo(bs, newOffset) > bs.Offset) ==> len(bs.Chunks) == max(0, old(len(bs.Chunks)) - old(discard(bs, newOffset)))
+//@   label C23.move.kept
+//@   ensures old(alignedTo(bs, newOffset) > bs.Offset) ==> (forall i in 0..len(bs.Chunks) :: sameChunk(bs, i, i + old(discard(bs, newOffset))))
+//@   label C23.move.frame
+//@   ensures bs.Granularity == old(bs.Granularity) && bufWF(bs) && bufAligned(bs) && bs.Offset >= old(bs.Offset)
+//@   assigns bs.Chunks, bs.Offset
+
+// extraction of [offset, offset+size): succeeds iff every byte of the range is defined, and then returns exactly those bytes.
+// Witnesses sW/oW: output byte k is the byte of slot sW[k] at in-slot position oW[k], and that IS relative offset offset+k:
+// bs.Offset + sW[k]*Granularity + oW[k] == offset + k.
+//@ func relOf(bs, offset) = offset - bs.Offset
+//@ func lastSlot(bs, offset, size) = (offset - bs.Offset + size - 1) / bs.Granularity
+//@ fn bufferExtractData
+//@   property C23
+//@   requires bufWF(bs) && offset >= bs.Offset && size > 0 && size <= 4611686018427387904 && offset + size <= MaxUint64
+//@   use forall q in 0..len(bs.Chunks) + 1 :: divLower(q, offset - bs.Offset + size - 1, bs.Granularity)
+//@   use forall q in 0..len(bs.Chunks) + 1 :: divUpper(q, offset - bs.Offset + size - 1, bs.Granularity)
+//@   witness sW map = mapof(k, k >= dn ? i : gS[k])
+//@   witness oW map = mapof(k, k >= dn ? so + k - dn : gO[k])
+//@   label C23.extract.ok
+//@   ensures result1 <==> lastSlot(bs, offset, size) < len(bs.Chunks) && (forall j in slotOf(bs, offset)..lastSlot(bs, offset, size) + 1 :: bs.Chunks[j].Valid)
+//@   label C23.extract.none
+//@   ensures !result1 ==> len(result0) == 0
+//@   label C23.extract.len
+//@   ensures result1 ==> len(result0) == size && fresh(result0)
+//@   label C23.extract.where
+//@   ensures result1 ==> (forall k in 0..size :: slotOf(bs, offset) <= sW[k] && sW[k] <= lastSlot(bs, offset, size) && 0 <= oW[k] && oW[k] < bs.Granularity && sW[k] * bs.Granularity + oW[k] == relOf(bs, offset) + k)
+//@   label C23.extract.bytes
+//@   ensures result1 ==> (forall k in 0..size :: result0[k] == bs.Chunks[sW[k]].Data[oW[k]])
+//@   assigns nothing
+//@   loop 0: ghost dn = 0
+//@   loop 0: backedge dn = size - sizeLeft
+//@   loop 0: ghost so = slotOffset
+//@   loop 0: backedge so = slotOffset
+//@   loop 0: ghost gS = idperm
+//@   loop 0: backedge gS = mapof(k, k >= dn ? athead(i) : gS[k])
+//@   loop 0: ghost gO = idperm
+//@   loop 0: backedge gO = mapof(k, k >= dn ? so + k - dn : gO[k])
+//@   loop 0: invariant slot <= i && 0 < sizeLeft && sizeLeft <= size && dn == size - sizeLeft && len(data) == size && fresh(data) && so == slotOffset
+//@   loop 0: invariant 0 <= slotOffset && slotOffset < bs.Granularity && i * bs.Granularity + slotOffset == relOf(bs, offset) + dn
+//@   loop 0: invariant slot == slotOf(bs, offset) && forall j in slot..i :: bs.Chunks[j].Valid
+//@   loop 0: invariant forall k in 0..dn :: slot <= gS[k] && gS[k] < i && 0 <= gO[k] && gO[k] < bs.Granularity && gS[k] * bs.Granularity + gO[k] == relOf(bs, offset) + k
+//@   loop 0: invariant forall j in 0..len(bs.Chunks) :: ref(bs.Chunks[j].Data) != ref(data)
+//@   loop 0: invariant forall k in 0..dn :: data[k] == bs.Chunks[gS[k]].Data[gO[k]]
+
+// ======================= transfer steps =======================
+// ---- ghost view of the ports: same ghosts and trusted iface contracts as /verif/contracts/mem/rob/zz_contracts_C21_verif.go ----
+//@ ghost var canSend set
+//@ ghost var sendCnt map
+//@ ghost var sentTyp map2
+//@ ghost var sentVal map2
+//@ ghost var inTyp map
+//@ ghost var inVal map
+//@ ghost var retrCnt map
+//@ ghost var issued set
+
+//@ func portNamed(m, n) = m.comp.TickingComponent.PortOwnerBase.ports[n]
+//@ func insP(m) = ifaceval(portNamed(m, "Inside"))
+//@ func outP(m) = ifaceval(portNamed(m, "Outside"))
+//@ func topP(m) = ifaceval(portNamed(m, "Top"))
+//@ pred dmWF(m) = m.comp != nil && m.comp.TickingComponent != nil && m.comp.TickingComponent.PortOwnerBase != nil && ("Top" in m.comp.TickingComponent.PortOwnerBase.ports) && ("Inside" in m.comp.TickingComponent.PortOwnerBase.ports) && ("Outside" in m.comp.TickingComponent.PortOwnerBase.ports) && portNamed(m, "Top") != nil && portNamed(m, "Inside") != nil && portNamed(m, "Outside") != nil
+//@ pred idGenOK() = timing.idGeneratorInstantiated ==> timing.idGenerator != nil
+//@ pred issuedGrows() = forall k int :: old(issued)[k] ==> issued[k]
+//@ func sentAt(p, n) = mkiface(sentTyp[p][n], sentVal[p][n])
+//@ func sentOn(p) = sentAt(p, sendCnt[p] - 1)
+//@ pred oneMoreSent(p) = sendCnt == upd(old(sendCnt), p, old(sendCnt)[p] + 1) && sentTyp == upd(old(sentTyp), p, upd(old(sentTyp)[p], old(sendCnt)[p], sentTyp[p][old(sendCnt)[p]])) && sentVal == upd(old(sentVal), p, upd(old(sentVal)[p], old(sendCnt)[p], sentVal[p][old(sendCnt)[p]]))
+//@ pred nothingSent() = sendCnt == old(sendCnt) && sentTyp == old(sentTyp) && sentVal == old(sentVal) && canSend == old(canSend)
+//@ pred nothingRetrieved() = inTyp == old(inTyp) && inVal == old(inVal) && retrCnt == old(retrCnt)
+//@ func headOf(p) = mkiface(inTyp[p], inVal[p])
+
+// ---- the current transaction ----
+//@ func active(m) = m.comp.State.CurrentTransaction.Active
+//@ func srcA(m) = m.comp.State.CurrentTransaction.SrcAddress
+//@ func dstA(m) = m.comp.State.CurrentTransaction.DstAddress
+//@ func bsz(m) = m.comp.State.CurrentTransaction.ByteSize
+//@ func nra(m) = m.comp.State.CurrentTransaction.NextReadAddr
+//@ func nwa(m) = m.comp.State.CurrentTransaction.NextWriteAddr
+//@ func srcG(m) = m.comp.State.SrcByteGranularity
+//@ func dstG(m) = m.comp.State.DstByteGranularity
+//@ func bufOff(m) = m.comp.State.Buffer.Offset
+//@ func bufG(m) = m.comp.State.Buffer.Granularity
+//@ pred sideOK(s) = s == "inside" || s == "outside"
+//@ func sidePort(m, s) = s == "inside" ? portNamed(m, "Inside") : portNamed(m, "Outside")
+//@ func dstP(m) = ifaceval(sidePort(m, m.comp.State.DstSide))
+//@ func srcP(m) = ifaceval(sidePort(m, m.comp.State.SrcSide))
+//@ pred mapperOK(kind, ports, isz) = (kind == "single" || kind == "interleaved") && len(ports) > 0 && (kind == "interleaved" ==> isz > 0)
+//@ pred sideMapperOK(m, s) = s == "inside" ? mapperOK(m.comp.spec.InsideMapperKind, m.comp.spec.InsideMapperPorts, m.comp.spec.InsideMapperInterleavingSize) : mapperOK(m.comp.spec.OutsideMapperKind, m.comp.spec.OutsideMapperPorts, m.comp.spec.OutsideMapperInterleavingSize)
+// buffer part of the transaction invariant: the buffer is indexed in source granules, starts at or below the write pointer
+//@ pred bufInv(m) = bufG(m) == srcG(m) && srcG(m) > 0 && dstG(m) > 0 && bufOff(m) % bufG(m) == 0 && (forall i in 0..len(m.comp.State.Buffer.Chunks) :: m.comp.State.Buffer.Chunks[i].Valid ==> len(m.comp.State.Buffer.Chunks[i].Data) == bufG(m)) && (forall i in 0..len(m.comp.State.Buffer.Chunks) :: ref(m.comp.State.Buffer.Chunks[i].Data) <= allocTop)
+//@ pred writeInv(m) = nwa(m) >= dstA(m) && bufOff(m) <= nwa(m) - dstA(m) && dstA(m) + bsz(m) <= MaxUint64
+//@ pred transSame(m) = active(m) == old(active(m)) && srcA(m) == old(srcA(m)) && dstA(m) == old(dstA(m)) && bsz(m) == old(bsz(m)) && nra(m) == old(nra(m)) && nwa(m) == old(nwa(m)) && m.comp.State.CurrentTransaction.ReqID == old(m.comp.State.CurrentTransaction.ReqID) && m.comp.State.CurrentTransaction.ReqSrc == old(m.comp.State.CurrentTransaction.ReqSrc) && m.comp.State.CurrentTransaction.ReqDst == old(m.comp.State.CurrentTransaction.ReqDst) && srcG(m) == old(srcG(m)) && dstG(m) == old(dstG(m)) && m.comp.State.SrcSide == old(m.comp.State.SrcSide) && m.comp.State.DstSide == old(m.comp.State.DstSide)
+//@ pred bufSame(m) = bufOff(m) == old(bufOff(m)) && bufG(m) == old(bufG(m)) && unchanged(m.comp.State.Buffer.Chunks)
+
+// ---- port accessors ----
+//@ fn (*dataTransferMW).insidePort
+//@   property C23
+//@   requires dmWF(m)
+//@   ensures result == portNamed(m, "Inside")
+//@   assigns nothing
+//@ fn (*dataTransferMW).outsidePort
+//@   property C23
+//@   requires dmWF(m)
+//@   ensures result == portNamed(m, "Outside")
+//@   assigns nothing
+//@ fn (*ctrlParseMW).topPort
+//@   property C23
+//@   requires dmWF(m)
+//@   ensures result == portNamed(m, "Top")
+//@   assigns nothing
+//@ fn (*dataTransferMW).srcPort
+//@   property C23
+//@   requires dmWF(m) && sideOK(m.comp.State.SrcSide)
+//@   ensures result == sidePort(m, m.comp.State.SrcSide) && result != nil
+//@   assigns nothing
+//@ fn (*dataTransferMW).dstPort
+//@   property C23
+//@   requires dmWF(m) && sideOK(m.comp.State.DstSide)
+//@   ensures result == sidePort(m, m.comp.State.DstSide) && result != nil
+//@   assigns nothing
+//@ fn findPort
+//@   property C23
+//@   panics !mapperOK(kind, ports, interleavingSize)
+//@   assigns nothing
+//@ fn (*dataTransferMW).findSrcPort
+//@   property C23
+//@   requires m.comp != nil && sideOK(m.comp.State.SrcSide) && sideMapperOK(m, m.comp.State.SrcSide)
+//@   assigns nothing
+//@ fn (*dataTransferMW).findDstPort
+//@   property C23
+//@   requires m.comp != nil && sideOK(m.comp.State.DstSide) && sideMapperOK(m, m.comp.State.DstSide)
+//@   assigns nothing
+//@ fn transactionAsMsg
+//@   property C23
+//@   requires trans != nil
+//@   label C23.asmsg
+//@   ensures result.ID == trans.ReqID && result.Src == trans.ReqSrc && result.Dst == trans.ReqDst && result.SrcAddress == trans.SrcAddress && result.DstAddress == trans.DstAddress && result.ByteSize == trans.ByteSize
+//@   assigns nothing
+
+// ---- writeToDst: EVERY write request lies inside the destination range and carries the buffered source bytes of the same
+// relative offset (wS/wO: output byte k is the byte of slot wS[k], in-slot position wO[k] of the buffer on entry) ----
+//@ func wrSent(m) = as(sentOn(dstP(m)), "memprotocol.WriteReq")
+// a write carries one destination granule, clamped to what is left of the destination range
+//@ func wrSize(m) = min(dstG(m), dstA(m) + bsz(m) - nwa(m))
+//@ fn (*dataTransferMW).writeToDst
+//@   property C23
+//@   requires dmWF(m) && idGenOK()
+//@   requires active(m) ==> bufInv(m) && writeInv(m) && sideOK(m.comp.State.DstSide) && sideMapperOK(m, m.comp.State.DstSide) && wrSize(m) <= 4611686018427387904 && m.comp.State.CurrentTransaction.PendingWrite != nil
+//@   witness wS map = bufferExtractData_sW
+//@   witness wO map = bufferExtractData_oW
+//@   label C23.write.when
+//@   ensures result ==> old(active(m)) && old(nwa(m) < dstA(m) + bsz(m)) && old(canSend[dstP(m)])
+//@   label C23.write.noop
+//@   ensures !result ==> transSame(m) && bufSame(m) && nothingSent() && unchanged(m.comp.State.CurrentTransaction.PendingWrite)
+//@   label C23.write.onesend
+//@   ensures result ==> oneMoreSent(dstP(m)) && hastype(sentOn(dstP(m)), "memprotocol.WriteReq")
+//@   label C23.write.addr
+//@   ensures result ==> wrSent(m).Address == old(nwa(m)) && wrSent(m).Address >= dstA(m)
+//@   label C23.write.bound
+//@   ensures result ==> wrSent(m).Address + len(wrSent(m).Data) <= dstA(m) + bsz(m)
+//@   label C23.write.len
+//@   ensures result ==> len(wrSent(m).Data) == old(wrSize(m)) && len(wrSent(m).Data) > 0
+//@   label C23.write.where
+//@   ensures result ==> (forall k in 0..old(wrSize(m)) :: 0 <= wS[k] && 0 <= wO[k] && wO[k] < bufG(m) && old(bufOff(m)) + wS[k] * bufG(m) + wO[k] == wrSent(m).Address - dstA(m) + k)
+//@   label C23.write.bytes
+//@   ensures result ==> (forall k in 0..old(wrSize(m)) :: wS[k] < old(len(m.comp.State.Buffer.Chunks)) && old(m.comp.State.Buffer.Chunks[wS[k]].Valid) && wrSent(m).Data[k] == old(m.comp.State.Buffer.Chunks[wS[k]].Data[wO[k]]))
+//@   label C23.write.next
+//@   ensures result ==> nwa(m) == old(nwa(m)) + old(wrSize(m)) && srcA(m) == old(srcA(m)) && dstA(m) == old(dstA(m)) && bsz(m) == old(bsz(m)) && nra(m) == old(nra(m)) && active(m)
+//@   label C23.write.pending
+//@   ensures result ==> (wrSent(m).ID in m.comp.State.CurrentTransaction.PendingWrite) && !old(issued)[wrSent(m).ID] && m.comp.State.CurrentTransaction.PendingWrite[wrSent(m).ID].Address == wrSent(m).Address && (forall k uint64 :: k != wrSent(m).ID ==> ((k in m.comp.State.CurrentTransaction.PendingWrite) <==> old(k in m.comp.State.CurrentTransaction.PendingWrite)))
+//@   label C23.write.forget
+//@   ensures result ==> bufOff(m) == max(old(bufOff(m)), (nwa(m) - dstA(m)) - (nwa(m) - dstA(m)) % bufG(m))
+//@   label C23.write.inv
+//@   ensures active(m) ==> bufInv(m) && writeInv(m)
+//@   label C23.write.ids
+//@   ensures idGenOK() && issuedGrows()
+//@   assigns m.comp.State.CurrentTransaction.NextWriteAddr, elems(m.comp.State.CurrentTransaction.PendingWrite), m.comp.State.Buffer.Chunks, m.comp.State.Buffer.Offset, canSend, sendCnt, sentTyp, sentVal, issued, key("G|github.com/sarchlab/akita/v5/timing.idGenerator|"), key("G|github.com/sarchlab/akita/v5/timing.idGeneratorInstantiated|"), key("O|timing.sequentialIDGenerator|nextID"), key("O|timing.parallelIDGenerator|nextID")
+
+// ---- finishTransaction: exactly one acknowledgment, only after every read and write is acknowledged ----
+//@ func rspSent(m) = as(sentOn(topP(m)), "datamoverprotocol.DataMoveResponse")
+//@ func pendR(m) = len(m.comp.State.CurrentTransaction.PendingRead)
+//@ func pendW(m) = len(m.comp.State.CurrentTransaction.PendingWrite)
+//@ fn (*ctrlParseMW).finishTransaction
+//@   property C23
+//@   requires dmWF(m) && idGenOK()
+//@   requires active(m) ==> srcG(m) > 0 && dstA(m) + bsz(m) <= MaxUint64
+//@   label C23.finish.when
+//@   ensures result <==> old(active(m) && nwa(m) >= dstA(m) + bsz(m) && pendR(m) == 0 && pendW(m) == 0 && canSend[topP(m)])
+//@   label C23.finish.oneack
+//@   ensures result ==> oneMoreSent(topP(m)) && hastype(sentOn(topP(m)), "datamoverprotocol.DataMoveResponse")
+//@   label C23.finish.ackto
+//@   ensures result ==> rspSent(m).RspTo == old(m.comp.State.CurrentTransaction.ReqID) && rspSent(m).Dst == old(m.comp.State.CurrentTransaction.ReqSrc) && rspSent(m).Src == old(m.comp.State.CurrentTransaction.ReqDst)
+//@   label C23.finish.idle
+//@   ensures result ==> !active(m) && pendR(m) == 0 && pendW(m) == 0 && len(m.comp.State.Buffer.Chunks) == 0
+//@   label C23.finish.noop
+//@   ensures !result ==> transSame(m) && bufSame(m) && nothingSent()
+//@   label C23.finish.ids
+//@   ensures idGenOK() && issuedGrows()
+//@   assigns m.comp.State.CurrentTransaction, m.comp.State.Buffer, canSend, sendCnt, sentTyp, sentVal, issued, key("G|github.com/sarchlab/akita/v5/timing.idGenerator|"), key("G|github.com/sarchlab/akita/v5/timing.idGeneratorInstantiated|"), key("O|timing.sequentialIDGenerator|nextID"), key("O|timing.parallelIDGenerator|nextID")
+
+// ---- parseFromCP: a request is admitted only when no move is active; it is the request at the head of Top (FIFO by the
+// Port contract); while a move is active the head stays where it is ----
+//@ pred isMoveReq(x) = hastype(x, "datamoverprotocol.DataMoveRequest")
+//@ func moveReq(x) = as(x, "datamoverprotocol.DataMoveRequest")
+//@ func granOf(m, side) = side == "inside" ? m.comp.spec.InsideByteGranularity : m.comp.spec.OutsideByteGranularity
+//@ pred admissible(m, x) = isMoveReq(x) && sideOK(moveReq(x).SrcSide) && sideOK(moveReq(x).DstSide) && granOf(m, moveReq(x).SrcSide) > 0 && granOf(m, moveReq(x).DstSide) > 0 && moveReq(x).SrcAddress % granOf(m, moveReq(x).SrcSide) == 0 && moveReq(x).DstAddress % granOf(m, moveReq(x).DstSide) == 0
+//@ fn (*ctrlParseMW).parseFromCP
+//@   property C23
+//@   requires dmWF(m)
+//@   panics !active(m) && inTyp[topP(m)] != 0 && !admissible(m, headOf(topP(m)))
+//@   label C23.admit.when
+//@   ensures result <==> old(!active(m) && inTyp[topP(m)] != 0)
+//@   label C23.admit.busy
+//@   ensures !result ==> transSame(m) && bufSame(m) && nothingRetrieved()
+//@   label C23.admit.head
+//@   ensures result ==> retrCnt == upd(old(retrCnt), topP(m), old(retrCnt)[topP(m)] + 1) && isMoveReq(old(headOf(topP(m))))
+//@   label C23.admit.trans
+//@   ensures result ==> active(m) && m.comp.State.CurrentTransaction.ReqID == moveReq(old(headOf(topP(m)))).ID && m.comp.State.CurrentTransaction.ReqSrc == moveReq(old(headOf(topP(m)))).Src && m.comp.State.CurrentTransaction.ReqDst == moveReq(old(headOf(topP(m)))).Dst && srcA(m) == moveReq(old(headOf(topP(m)))).SrcAddress && dstA(m) == moveReq(old(headOf(topP(m)))).DstAddress && bsz(m) == moveReq(old(headOf(topP(m)))).ByteSize
+//@   label C23.admit.start
+//@   ensures result ==> nra(m) == srcA(m) && nwa(m) == dstA(m) && pendR(m) == 0 && pendW(m) == 0 && bufOff(m) == 0 && len(m.comp.State.Buffer.Chunks) == 0 && bufG(m) == srcG(m) && m.comp.State.CurrentTransaction.PendingRead != nil && m.comp.State.CurrentTransaction.PendingWrite != nil
+//@   label C23.admit.gran
+//@   ensures result ==> m.comp.State.SrcSide == moveReq(old(headOf(topP(m)))).SrcSide && m.comp.State.DstSide == moveReq(old(headOf(topP(m)))).DstSide && sideOK(m.comp.State.SrcSide) && sideOK(m.comp.State.DstSide) && srcG(m) == granOf(m, m.comp.State.SrcSide) && dstG(m) == granOf(m, m.comp.State.DstSide) && srcG(m) > 0 && dstG(m) > 0 && srcA(m) % srcG(m) == 0 && dstA(m) % dstG(m) == 0
+//@   label C23.admit.nosend
+//@   ensures nothingSent()
+//@   assigns m.comp.State.SrcSide, m.comp.State.DstSide, m.comp.State.SrcByteGranularity, m.comp.State.DstByteGranularity, m.comp.State.CurrentTransaction, m.comp.State.Buffer, inTyp, inVal, retrCnt
+
+// ---- readFromSrc: reads are issued only inside [SrcAddress, SrcAddress+ByteSize), one source granule each, in the buffer window ----
+//@ lemma modStep(x, g)
+//@   property C23
+//@   requires g > 0 && x >= 0 && x % g == 0
+//@   ensures (x + g) % g == 0
+//@ func rdSent(m) = as(sentOn(srcP(m)), "memprotocol.ReadReq")
+//@ pred readInv(m) = srcG(m) > 0 && nra(m) >= srcA(m) && srcA(m) % srcG(m) == 0 && nra(m) % srcG(m) == 0 && srcA(m) + bsz(m) <= MaxUint64
+//@ fn (*dataTransferMW).readFromSrc
+//@   property C23
+//@   requires dmWF(m) && idGenOK()
+//@   requires active(m) ==> readInv(m) && sideOK(m.comp.State.SrcSide) && sideMapperOK(m, m.comp.State.SrcSide) && nra(m) + srcG(m) <= MaxUint64 && bufOff(m) + m.comp.spec.BufferSize <= MaxUint64 && m.comp.State.CurrentTransaction.PendingRead != nil
+//@   use modStep(active(m) ? nra(m) : 0, active(m) ? srcG(m) : 1)
+//@   label C23.read.when
+//@   ensures result ==> old(active(m)) && old(canSend[srcP(m)])
+//@   label C23.read.noop
+//@   ensures !result ==> transSame(m) && bufSame(m) && nothingSent() && unchanged(m.comp.State.CurrentTransaction.PendingRead)
+//@   label C23.read.onesend
+//@   ensures result ==> oneMoreSent(srcP(m)) && hastype(sentOn(srcP(m)), "memprotocol.ReadReq")
+//@   label C23.read.inside
+//@   ensures result ==> rdSent(m).Address == old(nra(m)) && rdSent(m).Address >= srcA(m) && rdSent(m).Address < srcA(m) + bsz(m) && rdSent(m).Address % srcG(m) == 0 && rdSent(m).AccessByteSize == srcG(m)
+//@   label C23.read.window
+//@   ensures result ==> rdSent(m).Address - srcA(m) < bufOff(m) + m.comp.spec.BufferSize
+//@   label C23.read.next
+//@   ensures result ==> nra(m) == old(nra(m)) + srcG(m) && srcA(m) == old(srcA(m)) && dstA(m) == old(dstA(m)) && bsz(m) == old(bsz(m)) && nwa(m) == old(nwa(m)) && active(m) && bufSame(m)
+//@   label C23.read.pending
+//@   ensures result ==> (rdSent(m).ID in m.comp.State.CurrentTransaction.PendingRead) && !old(issued)[rdSent(m).ID] && m.comp.State.CurrentTransaction.PendingRead[rdSent(m).ID].Address == rdSent(m).Address && (forall k uint64 :: k != rdSent(m).ID ==> ((k in m.comp.State.CurrentTransaction.PendingRead) <==> old(k in m.comp.State.CurrentTransaction.PendingRead)))
+//@   label C23.read.inv
+//@   ensures active(m) ==> readInv(m)
+//@   label C23.read.ids
+//@   ensures idGenOK() && issuedGrows()
+//@   assigns m.comp.State.CurrentTransaction.NextReadAddr, elems(m.comp.State.CurrentTransaction.PendingRead), canSend, sendCnt, sentTyp, sentVal, issued, key("G|github.com/sarchlab/akita/v5/timing.idGenerator|"), key("G|github.com/sarchlab/akita/v5/timing.idGeneratorInstantiated|"), key("O|timing.sequentialIDGenerator|nextID"), key("O|timing.parallelIDGenerator|nextID")
+
+// ---- responses ----
+//@ pred isRdRsp(x) = hastype(x, "memprotocol.DataReadyRsp")
+//@ pred isWrRsp(x) = hastype(x, "memprotocol.WriteDoneRsp")
+//@ func rdRsp(x) = as(x, "memprotocol.DataReadyRsp")
+//@ func wrRsp(x) = as(x, "memprotocol.WriteDoneRsp")
+//@ pred retrievedOne(p) = retrCnt == upd(old(retrCnt), p, old(retrCnt)[p] + 1)
+
+// a write acknowledgment removes exactly the acknowledged write from the pending set (an unknown one is dropped)
+//@ fn (*dataTransferMW).processWriteDoneFromDst
+//@   property C23
+//@   requires dmWF(m)
+//@   requires active(m) ==> sideOK(m.comp.State.DstSide)
+//@   label C23.wdone.when
+//@   ensures result <==> old(active(m) && isWrRsp(headOf(dstP(m))))
+//@   label C23.wdone.noop
+//@   ensures !result ==> nothingRetrieved() && unchanged(m.comp.State.CurrentTransaction.PendingWrite)
+//@   label C23.wdone.retrieved
+//@   ensures result ==> retrievedOne(dstP(m))
+//@   label C23.wdone.acked
+//@   ensures result ==> (forall k uint64 :: (k in m.comp.State.CurrentTransaction.PendingWrite) <==> old(k in m.comp.State.CurrentTransaction.PendingWrite) && k != wrRsp(old(headOf(dstP(m)))).RspTo)
+//@   label C23.wdone.frame
+//@   ensures transSame(m) && bufSame(m) && nothingSent()
+//@   assigns elems(m.comp.State.CurrentTransaction.PendingWrite), inTyp, inVal, retrCnt
+
+// a read response is stored at the relative offset of the read it answers (assumed: that read lies at or above the buffer
+// offset and the response carries exactly one source granule) and the read leaves the pending set
+//@ func rdKey(m) = rdRsp(headOf(srcP(m))).RspTo
+//@ func rdOff(m) = m.comp.State.CurrentTransaction.PendingRead[rdKey(m)].Address - srcA(m)
+//@ func rdSlot(m) = (rdOff(m) - bufOff(m)) / bufG(m)
+//@ pred rdMatched(m) = active(m) && isRdRsp(headOf(srcP(m))) && (rdKey(m) in m.comp.State.CurrentTransaction.PendingRead)
+//@ fn (*dataTransferMW).processDataReadyFromSrc
+//@   property C23
+//@   requires dmWF(m)
+//@   requires active(m) ==> bufInv(m) && sideOK(m.comp.State.SrcSide)
+//@   requires rdMatched(m) ==> m.comp.State.CurrentTransaction.PendingRead[rdKey(m)].Address >= srcA(m) + bufOff(m) && rdOff(m) % bufG(m) == 0 && len(rdRsp(headOf(srcP(m))).Data) == bufG(m)
+//@   use alignedDiff(rdMatched(m) ? rdOff(m) : 0, rdMatched(m) ? bufOff(m) : 0, rdMatched(m) ? bufG(m) : 1)
+//@   label C23.dready.when
+//@   ensures result <==> old(active(m) && isRdRsp(headOf(srcP(m))))
+//@   label C23.dready.noop
+//@   ensures !result ==> nothingRetrieved() && unchanged(m.comp.State.CurrentTransaction.PendingRead) && bufSame(m)
+//@   label C23.dready.retrieved
+//@   ensures result ==> retrievedOne(srcP(m))
+//@   label C23.dready.acked
+//@   ensures result ==> (forall k uint64 :: (k in m.comp.State.CurrentTransaction.PendingRead) <==> old(k in m.comp.State.CurrentTransaction.PendingRead) && k != old(rdKey(m)))
+//@   label C23.dready.orphan
+//@   ensures result && !old(rdMatched(m)) ==> bufSame(m)
+//@   label C23.dready.stored
+//@   ensures old(rdMatched(m)) ==> m.comp.State.Buffer.Chunks[old(rdSlot(m))].Valid && len(m.comp.State.Buffer.Chunks[old(rdSlot(m))].Data) == old(len(rdRsp(headOf(srcP(m))).Data)) && bufOff(m) + old(rdSlot(m)) * bufG(m) == old(rdOff(m))
+//@   label C23.dready.bytes
+//@   ensures old(rdMatched(m)) ==> (forall b in 0..bufG(m) :: m.comp.State.Buffer.Chunks[old(rdSlot(m))].Data[b] == old(rdRsp(headOf(srcP(m))).Data)[b])
+//@   label C23.dready.others
+//@   ensures old(rdMatched(m)) ==> len(m.comp.State.Buffer.Chunks) == max(old(len(m.comp.State.Buffer.Chunks)), old(rdSlot(m)) + 1) && (forall i in 0..old(len(m.comp.State.Buffer.Chunks)) :: i != old(rdSlot(m)) ==> m.comp.State.Buffer.Chunks[i].Valid == old(m.comp.State.Buffer.Chunks[i].Valid) && ref(m.comp.State.Buffer.Chunks[i].Data) == old(ref(m.comp.State.Buffer.Chunks[i].Data)))
+//@   label C23.dready.frame
+//@   ensures transSame(m) && nothingSent() && bufOff(m) == old(bufOff(m)) && bufG(m) == old(bufG(m)) && (active(m) ==> bufInv(m))
+//@   assigns m.comp.State.Buffer.Chunks, elems(m.comp.State.Buffer.Chunks), elems(m.comp.State.CurrentTransaction.PendingRead), inTyp, inVal, retrCnt
+
+//@ fn resolveByteGranularity
+//@   property C23
+//@   panics !sideOK(side)
+//@   label C23.gran
+//@   ensures result == (side == "inside" ? spec.InsideByteGranularity : spec.OutsideByteGranularity)
+//@   assigns nothing
+
+// ---- one control tick: at most one acknowledgment and at most one admission; a request is admitted only if no move was
+// active or the active one has just been acknowledged; a paused data mover does nothing ----
+//@ fn (*ctrlParseMW).Tick
+//@   property C23
+//@   requires dmWF(m) && idGenOK()
+//@   requires active(m) ==> srcG(m) > 0 && dstA(m) + bsz(m) <= MaxUint64
+//@   panics any
+//@   label C23.tick.oneack
+//@   ensures sendCnt == old(sendCnt) || oneMoreSent(topP(m))
+//@   label C23.tick.ackwhen
+//@   ensures sendCnt != old(sendCnt) ==> old(active(m) && nwa(m) >= dstA(m) + bsz(m) && pendR(m) == 0 && pendW(m) == 0)
+//@   label C23.tick.oneadmit
+//@   ensures retrCnt == old(retrCnt) || retrievedOne(topP(m))
+//@   label C23.tick.admitidle
+//@   ensures retrCnt != old(retrCnt) ==> !old(active(m)) || sendCnt != old(sendCnt)
+//@   label C23.tick.paused
+//@   ensures old(m.comp.State.ControlState == memcontrolprotocol.StatePaused) ==> !result && transSame(m) && bufSame(m) && nothingSent() && nothingRetrieved()
+//@   label C23.tick.ids
+//@   ensures idGenOK() && issuedGrows()
+//@   assigns m.comp.State.SrcSide, m.comp.State.DstSide, m.comp.State.SrcByteGranularity, m.comp.State.DstByteGranularity, m.comp.State.CurrentTransaction, m.comp.State.Buffer, inTyp, inVal, retrCnt, canSend, sendCnt, sentTyp, sentVal, issued, key("G|github.com/sarchlab/akita/v5/timing.idGenerator|"), key("G|github.com/sarchlab/akita/v5/timing.idGeneratorInstantiated|"), key("O|timing.sequentialIDGenerator|nextID"), key("O|timing.parallelIDGenerator|nextID")
